@@ -22,3 +22,19 @@ func SelectCount() int { return 0 }
 
 // Goid is not available with the stock runtime.
 func Goid() uint64 { return 0 }
+
+// Classes of synchronisation points (see on.go).
+const (
+	SyncMutex = 1
+	SyncSpawn = 2
+	SyncChan  = 4
+)
+
+// SetSync is a no-op with the stock runtime.
+func SetSync(at int, mask uint32) {}
+
+// SyncCount is 0 with the stock runtime.
+func SyncCount() int { return 0 }
+
+// SyncPoint is a no-op with the stock runtime.
+func SyncPoint() {}
